@@ -157,6 +157,34 @@ theorem disabled_never_coded (cfg : List Str) (aes : List (Option Str)) :
       · exact ih e he
   exact h aes
 
+/-- notification direction: a report / SubscriptionEnd is coded only with a coding that the subscriber's Subscribe request
+    declared with a weight > 0 and that the provider has enabled -/
+theorem notification_coding_declared (r : Registry) (enabled : List Str) (chunk : Nat) (ae : Option Str) (report : Bytes) (h : Hdrs)
+    (wire : Bytes) (c : Str) (he : notify r enabled chunk ae report = .ok (h, wire)) (hc : h.contentEncoding = some c) :
+    c ∈ enabled ∧ ∃ q, weightOf (ae.getD []) c = some q ∧ q.pos = true := by
+  unfold notify sendRequest at he
+  cases hm : encodeMessage r (parseHeader (ae.getD [])) enabled chunk report with
+  | error e => simp [hm] at he
+  | ok p =>
+    obtain ⟨h0, w0⟩ := p
+    simp only [hm] at he
+    injection he with he; injection he with hh _
+    have hce : h0.contentEncoding = some c := by subst hh; exact hc
+    have := sent_coding_negotiated r _ enabled chunk report h0 w0 c hm hce
+    exact ⟨this.2, mem_parseHeader _ c this.1⟩
+
+/-- what is sent never carries Content-Length together with Transfer-Encoding (RFC 7230 3.3.2), and exactly one of them -/
+theorem framing_exclusive (r : Registry) (cands sup : List Str) (chunk : Nat) (body : Bytes) (h : Hdrs) (wire : Bytes)
+    (he : encodeMessage r cands sup chunk body = .ok (h, wire)) :
+    (h.transferEncoding = some chunkedStr ∧ h.contentLength = none) ∨
+    (h.transferEncoding = none ∧ h.contentLength = some (.val wire.length)) := by
+  obtain ⟨z, hfr, _⟩ := encodeMessage_ok r cands sup chunk body h wire he
+  by_cases hc : chunk > 0
+  · simp only [hc, if_true] at hfr; exact Or.inl ⟨hfr.1, hfr.2.1⟩
+  · simp only [hc, if_false] at hfr
+    obtain ⟨h1, h2, h3⟩ := hfr
+    subst h3; exact Or.inr ⟨h1, h2⟩
+
 /-! ### content coding -/
 
 /-- **request path**: what `SoapClient._send_soap_request` puts on the wire is read back by
